@@ -48,7 +48,10 @@ def build(desc, sig, which=0):
     cols = [stored_floats(POINTS[(which + i) % 2], sig) for i in range(2)]
     if backend == "np":
         return vector.array({n: numpy.array([c[i] for c in cols]) for i, n in enumerate(names)})
-    arr = vector.Array([dict(zip(names, c)) for c in cols])
+    if (which + len(sig) + len(flavor)) % 2:
+        arr = vector.zip({n: ak.Array([c[i] for c in cols]) for i, n in enumerate(names)})
+    else:
+        arr = vector.Array([dict(zip(names, c)) for c in cols])
     if backend == "akarr":
         return arr
     return arr[0]
@@ -239,7 +242,13 @@ def _full_all(tc):
     return True
 
 
-def replay(type_cases, thorough=False, procs=16):
+def _register():
+    import vector
+
+    vector.register_awkward()
+
+
+def replay(type_cases, thorough=False, procs=16, registered=False):
     import multiprocessing as mp
 
     n = max(1, min(procs, len(type_cases)))
@@ -247,7 +256,9 @@ def replay(type_cases, thorough=False, procs=16):
     chunks = [c for c in chunks if c]
     total = {"records": [], "obs": [], "calls": 0, "cases": 0}
     policy = _full_all if thorough else _full_obj
-    with mp.get_context("fork").Pool(n) as pool:
+    # registered mode runs in fresh interpreters (register_awkward mutates the global registry)
+    ctx = mp.get_context("spawn") if registered else mp.get_context("fork")
+    with (ctx.Pool(n, initializer=_register) if registered else ctx.Pool(n)) as pool:
         for out in pool.imap_unordered(worker, [(c, policy) for c in chunks]):
             total["records"] += out["records"]
             total["obs"] += out["obs"]
